@@ -882,11 +882,12 @@ fn line_col_table(text: &str) -> BTreeMap<(u32, u32), usize> {
 }
 
 /// Words that are keywords beyond doubt in IEC 61131-3 (delimiters of declarations and
-/// statements, elementary type names); deliberately not complete.
+/// statements); deliberately not complete. Elementary type names are left out: an implementation
+/// may well give them a legend entry of their own.
 const DEFINITE_KEYWORDS: &[&str] = &[
     "FUNCTION_BLOCK", "END_FUNCTION_BLOCK", "FUNCTION", "END_FUNCTION", "PROGRAM", "END_PROGRAM", "VAR", "END_VAR", "VAR_INPUT", "VAR_OUTPUT",
     "VAR_EXTERNAL", "VAR_GLOBAL", "TYPE", "END_TYPE", "STRUCT", "END_STRUCT", "IF", "THEN", "ELSE", "END_IF", "CONFIGURATION", "END_CONFIGURATION",
-    "RESOURCE", "END_RESOURCE", "TASK", "WITH", "BOOL", "INT", "DINT", "SINT", "UINT", "REAL",
+    "RESOURCE", "END_RESOURCE", "TASK", "WITH",
 ];
 
 fn check_tokens(text: &str, data: &[u64], legend: &[String]) -> Result<usize, (String, String)> {
@@ -907,6 +908,7 @@ fn check_tokens(text: &str, data: &[u64], legend: &[String]) -> Result<usize, (S
     let mut start = 0u32;
     let mut prev_end: Option<(u32, u32)> = None;
     let mut spelling_types: BTreeMap<String, u64> = BTreeMap::new();
+    let mut word_operator_class: Option<(u64, String)> = None;
     for (k, chunk) in data.chunks(5).enumerate() {
         let (dl, ds, len, ty, mods) = (chunk[0] as u32, chunk[1] as u32, chunk[2] as u32, chunk[3], chunk[4]);
         if dl > 0 {
@@ -951,12 +953,7 @@ fn check_tokens(text: &str, data: &[u64], legend: &[String]) -> Result<usize, (S
         let t = &tok.text;
         let expected = if t.starts_with("(*") {
             Some("comment")
-        } else if matches!(tok.token_type, ironplc_parser::token::TokenType::Identifier) {
-            Some("variable")
         } else if matches!(t.as_str(), "+" | "-" | "*" | "/" | "**" | ":=" | "=" | "<>" | "<" | ">" | "<=" | ">=") {
-            Some("operator")
-        } else if matches!(t.to_uppercase().as_str(), "AND" | "OR" | "XOR" | "NOT" | "MOD") {
-            // word operators of IEC 61131-3 (Table 55)
             Some("operator")
         } else if DEFINITE_KEYWORDS.contains(&t.to_uppercase().as_str()) {
             Some("keyword")
@@ -966,6 +963,25 @@ fn check_tokens(text: &str, data: &[u64], legend: &[String]) -> Result<usize, (S
         if let Some(e) = expected {
             if legend_name != e {
                 return Err(("wrong-class".into(), format!("lexeme {t:?} is classified {legend_name}, expected {e}")));
+            }
+        }
+        if matches!(tok.token_type, ironplc_parser::token::TokenType::Identifier) && matches!(legend_name, "keyword" | "comment" | "operator" | "string" | "modifier" | "number") {
+            // an identifier may get any entry an implementation reserves for names (variable, type,
+            // function, …) but not the entry of another lexeme class
+            return Err(("wrong-class".into(), format!("identifier {t:?} is classified {legend_name}")));
+        }
+        if matches!(t.to_uppercase().as_str(), "AND" | "OR" | "XOR" | "NOT" | "MOD") {
+            // word operators (IEC 61131-3 Table 55) are operators and reserved words at once: either
+            // entry is defensible, but the family gets one and the same
+            if !matches!(legend_name, "operator" | "keyword") {
+                return Err(("wrong-class".into(), format!("word operator {t:?} is classified {legend_name}")));
+            }
+            match word_operator_class {
+                None => word_operator_class = Some((ty, t.clone())),
+                Some((c, ref first)) if c != ty => {
+                    return Err(("wrong-class".into(), format!("word operator {t:?} is classified {legend_name} but {first:?} is classified {}", legend[c as usize])));
+                }
+                _ => {}
             }
         }
         let key = t.to_lowercase();
@@ -978,16 +994,22 @@ fn check_tokens(text: &str, data: &[u64], legend: &[String]) -> Result<usize, (S
     }
     // completeness, for the classes the statement names and this oracle can recognise on its own:
     // every identifier, comment and punctuation operator of the document is reported
+    // which token kinds are highlighted is the implementation's choice, but it is a choice per kind:
+    // if some lexeme of a kind is reported, every lexeme of that kind in the document is
+    let mut per_kind: BTreeMap<String, (usize, usize, Option<(usize, String)>)> = BTreeMap::new();
     for (offset, (tok, hit)) in &reference {
+        let e = per_kind.entry(format!("{:?}", tok.token_type)).or_insert((0, 0, None));
+        e.1 += 1;
         if *hit {
-            continue;
+            e.0 += 1;
+        } else if e.2.is_none() {
+            e.2 = Some((*offset, tok.text.clone()));
         }
-        let t = &tok.text;
-        let must = t.starts_with("(*")
-            || matches!(tok.token_type, ironplc_parser::token::TokenType::Identifier)
-            || matches!(t.as_str(), "+" | "-" | "*" | "/" | "**" | ":=" | "=" | "<>" | "<" | ">" | "<=" | ">=");
-        if must {
-            return Err(("lexeme-missing".into(), format!("the {} {t:?} at offset {offset} is not reported", if t.starts_with("(*") { "comment" } else if t.chars().next().map(|c| c.is_alphabetic() || c == '_').unwrap_or(false) { "identifier" } else { "operator" })));
+    }
+    for (kind, (reported, total, first_missing)) in &per_kind {
+        if *reported > 0 && reported < total {
+            let (offset, text) = first_missing.clone().unwrap_or((0, String::new()));
+            return Err(("lexeme-missing".into(), format!("{reported} of the {total} {kind} lexemes of the document are reported, but not {text:?} at offset {offset}")));
         }
     }
     Ok(data.len() / 5)
